@@ -432,7 +432,10 @@ func (p *Process) stopProcess(cancelReadinessFuncs bool) error {
 		return nil
 	}
 	verifGate(p, "stop.checked.running")
-	p.setState(types.ProcessStateTerminating)
+	if !p.setStateIfRunning(types.ProcessStateTerminating) {
+		// the command ended between the check above and now
+		return nil
+	}
 	p.stopProbes()
 	if cancelReadinessFuncs {
 		if p.readyProber != nil {
@@ -740,6 +743,20 @@ func (p *Process) setState(state string) {
 	defer p.stateMtx.Unlock()
 	p.procState.Status = state
 	p.onStateChange(state)
+}
+
+// setStateIfRunning sets the state only if the process is still running (atomically)
+func (p *Process) setStateIfRunning(state string) bool {
+	p.stateMtx.Lock()
+	defer p.stateMtx.Unlock()
+	switch p.procState.Status {
+	case types.ProcessStateRunning, types.ProcessStateLaunched, types.ProcessStateLaunching:
+	default:
+		return false
+	}
+	p.procState.Status = state
+	p.onStateChange(state)
+	return true
 }
 
 func (p *Process) getState() *types.ProcessState {
